@@ -271,7 +271,8 @@ def setNameParent (s : FS F P W) (n : Node) (name : String) (d : Nat) : FS F P W
     | none => s
 
 /-- `fileSystem.Rename`. The two nested `Child` calls first store the moved inode under
-(newdir, newname) and then delete (olddir, oldname) — also when both are the same entry. -/
+(newdir, newname) and then delete (olddir, oldname) — unless both are the same directory entry
+(fix 100856b: `if newdirf.inode == olddirf.inode && newname == oldname { return oldinode, nil }`). -/
 def doRename (s : FS F P W) (old new : String) : FS F P W × Res :=
   let (ocomps, oldname) := splitDirBase old
   if special oldname then (s, Res.err Err.inval) else
@@ -297,7 +298,8 @@ def doRename (s : FS F P W) (old new : String) : FS F P W × Res :=
         | _ =>
           let s1 := { s with ents := setEnt s.ents nd newname n }
           let s2 := setNameParent s1 n newname nd
-          ({ s2 with ents := eraseEnt s2.ents od oldname }, Res.err Err.ok)
+          ({ s2 with ents := if od = nd ∧ oldname = newname then s2.ents else eraseEnt s2.ents od oldname },
+           Res.err Err.ok)
 
 /-- `fileSystem.remove`; `RemoveAll` turns every ErrNotExist (also of the parent lookup) into success. -/
 def doRemove (s : FS F P W) (path : String) (recursive : Bool) : FS F P W × Res :=
